@@ -189,9 +189,18 @@ func runMerge(
 		return err
 	}
 	nonAncestralCommits := [][]byte{}
-	for _, sum := range commits {
+	// names of nonAncestralCommits, index for index
+	nonAncestralNames := []string{}
+	// the branch being merged into, followed by the names of the other
+	// commits that are actually merged
+	mergeNames := []string{commitNames[0]}
+	for i, sum := range commits {
 		if !bytes.Equal(sum, baseCommit) {
 			nonAncestralCommits = append(nonAncestralCommits, sum)
+			nonAncestralNames = append(nonAncestralNames, commitNames[i])
+			if i > 0 {
+				mergeNames = append(mergeNames, commitNames[i])
+			}
 		}
 	}
 	if len(nonAncestralCommits) == 0 {
@@ -251,7 +260,7 @@ func runMerge(
 		if err != nil {
 			return err
 		}
-		return createMergeCommit(cmd, db, rs, commitNames, sum, commits, message, c)
+		return createMergeCommit(cmd, db, rs, mergeNames, sum, commits, message, c)
 	}
 
 	buf, err := diff.BlockBufferWithSingleStore(db, append([]*objects.Table{baseT}, otherTs...))
@@ -270,7 +279,7 @@ func runMerge(
 	defer merger.Close()
 
 	if noGUI {
-		return outputConflicts(cmd, db, buf, merger, commitNames, baseCommit, commits)
+		return outputConflicts(cmd, db, buf, merger, nonAncestralNames, baseCommit, commits)
 	} else {
 		cd, merges, err := collectMergeConflicts(cmd, merger)
 		if err != nil {
@@ -285,7 +294,7 @@ func runMerge(
 				}
 			}
 		} else {
-			removedCols, err = displayMergeApp(cmd, buf, merger, commitNames, commits, baseCommit, cd, merges)
+			removedCols, err = displayMergeApp(cmd, buf, merger, nonAncestralNames, commits, baseCommit, cd, merges)
 			if err != nil {
 				return err
 			}
@@ -293,7 +302,7 @@ func runMerge(
 		if noCommit {
 			return saveMergeResultToCSV(cmd, merger, removedCols, commits)
 		} else {
-			return commitMergeResult(cmd, db, rs, merger, removedCols, numWorkers, commitNames, commits, message, c)
+			return commitMergeResult(cmd, db, rs, merger, removedCols, numWorkers, mergeNames, commits, message, c)
 		}
 	}
 }
